@@ -112,6 +112,27 @@ fn run_child_named(args: &[String], extra_env: &[(&str, String)], name: usize) -
         cmd.env(k, v);
     }
     let mut child = cmd.spawn().map_err(|e| format!("spawn child: {e}"))?;
+    // A watchdog: a block of the concurrent engines finishes in seconds; one that is still running
+    // after many minutes is blocked in the operating system — the rewritten copy of the library
+    // waits on a std primitive the controlled scheduler does not own (a OnceLock/LazyLock
+    // initialiser, a static shared between executions). It is killed and reported as such.
+    let limit = child_time_limit(args);
+    let done = std::sync::Arc::new(AtomicBool::new(false));
+    let timed_out = std::sync::Arc::new(AtomicBool::new(false));
+    let watchdog = limit.map(|limit| {
+        let (done, timed_out, pid) = (done.clone(), timed_out.clone(), child.id());
+        std::thread::spawn(move || {
+            let start = Instant::now();
+            while !done.load(Ordering::SeqCst) {
+                if start.elapsed() > limit {
+                    timed_out.store(true, Ordering::SeqCst);
+                    let _ = Command::new("kill").args(["-9", &pid.to_string()]).status();
+                    break;
+                }
+                std::thread::sleep(std::time::Duration::from_millis(200));
+            }
+        })
+    });
     let mut out = String::new();
     let mut err = String::new();
     // stderr is small; read stdout first in a thread-free way by draining both sequentially is
@@ -126,7 +147,23 @@ fn run_child_named(args: &[String], extra_env: &[(&str, String)], name: usize) -
     so.read_to_string(&mut out).map_err(|e| format!("read child stdout: {e}"))?;
     err.push_str(&t.join().unwrap_or_default());
     let status = child.wait().map_err(|e| format!("wait child: {e}"))?;
+    done.store(true, Ordering::SeqCst);
+    if let Some(w) = watchdog {
+        let _ = w.join();
+    }
+    if timed_out.load(Ordering::SeqCst) {
+        return Err(format!("{CHILD_TIMED_OUT}: {}", args.join(" ")));
+    }
     Ok((status.code().unwrap_or(-1), out, err))
+}
+
+pub const CHILD_TIMED_OUT: &str = "child process blocked in the operating system and was killed";
+
+/// Wall-clock limit for a child (only the blocks of the concurrent engines have one).
+fn child_time_limit(args: &[String]) -> Option<std::time::Duration> {
+    let conc = args.first().map(|a| a == "block").unwrap_or(false) && args.get(1).map(|e| e.ends_with("conc")).unwrap_or(false);
+    let secs = std::env::var("VERIF_CONC_BLOCK_SECS").ok().and_then(|s| s.parse().ok()).unwrap_or(240u64);
+    conc.then(|| std::time::Duration::from_secs(secs))
 }
 
 pub fn run_block_child(prop: &str, seed: u64, first: u64, count: u64, tier: &str) -> Result<BlockResult, String> {
